@@ -27,7 +27,7 @@ for f in sorted(os.listdir(H)):
         elif 'end differs from its definite TIMEX' in det and 'till current date' in q:
             fid = 'F51'
         elif 'end minus start differs' in det:
-            mm = re.search(r"'start': '([^']*)', 'end': '([^']*)'", det)
+            mm = re.search(r"'timex': '\(([^,']*),([^,']*),", det)
             fid = 'F52' if (mm and mm.group(1) == mm.group(2)) or (cult in ('fr-fr', 'it-it') and 'T22' not in det) else None
             if 'T22' in det and 'T00' in det:
                 fid = 'F55'
